@@ -342,8 +342,9 @@ def append_loops(stmts):
     i = 0
     while i < len(out):
         st = out[i]
-        if isinstance(st, ast.Assign) and len(st.targets) == 1 and _is_name(st.targets[0]) and isinstance(st.value, ast.List) and not st.value.elts:
+        if isinstance(st, ast.Assign) and len(st.targets) == 1 and _is_name(st.targets[0]) and isinstance(st.value, ast.List) and not any(isinstance(e, ast.Starred) for e in st.value.elts):
             name = st.targets[0].id
+            initial = st.value.elts
             j = i + 1
             while j < len(out) and not any(isinstance(x, ast.Name) and x.id == name for x in ast.walk(out[j])):
                 j += 1
@@ -357,13 +358,130 @@ def append_loops(stmts):
                         n_uses = sum(1 for b in lp.body for x in ast.walk(b) if isinstance(x, ast.Name) and x.id == name)
                         if val is not None and not uses_elsewhere and n_uses == (2 if isinstance(last, ast.If) and last.orelse else 1):
                             comp = ast.ListComp(elt=val, generators=[ast.comprehension(target=lp.target, iter=lp.iter, ifs=[cond] if cond is not None else [], is_async=0)])
-                            new = ast.Assign(targets=[ast.Name(id=name, ctx=ast.Store())], value=comp, lineno=lp.lineno, col_offset=0)
-                            ast.fix_missing_locations(new)
                             between = out[i + 1:j]
-                            out[i:j + 1] = between + [new]
+                            pre = []
+                            value = comp
+                            if initial:
+                                # `X = [E(xs[0])]` then appends of E(a) over xs[1:]: the list of E over all of xs; the head access stays
+                                # (it is what fails on an empty xs).  Any other non-empty start: the concatenation.
+                                xs = _peeled(lp.iter, initial, lp.target, val) if cond is None and _pure_expr(val) else None
+                                stored_between = set()
+                                for b_ in between:
+                                    stored_between |= _names(b_, (ast.Store, ast.Del))
+                                if xs is not None and xs not in stored_between and not ((_names(val) - _names(lp.target)) & stored_between):
+                                    comp.generators[0].iter = ast.Name(id=xs, ctx=ast.Load())
+                                    pre = [ast.Expr(value=ast.Subscript(value=ast.Name(id=xs, ctx=ast.Load()), slice=ast.Constant(value=0), ctx=ast.Load()), lineno=st.lineno, col_offset=0)]
+                                elif all(_pure_expr(e_) and not (_names(e_) & stored_between) for e_ in initial) and not between:
+                                    value = ast.BinOp(left=ast.List(elts=list(initial), ctx=ast.Load()), op=ast.Add(), right=comp)
+                                else:
+                                    i += 1
+                                    continue
+                            new = ast.Assign(targets=[ast.Name(id=name, ctx=ast.Store())], value=value, lineno=lp.lineno, col_offset=0)
+                            for p_ in pre:
+                                ast.fix_missing_locations(p_)
+                            ast.fix_missing_locations(new)
+                            out[i:j + 1] = pre + between + [new]
                             continue
         i += 1
     return out
+
+
+# ------------------------------------------------------------------------------------------------ loop fission
+_PURE_ROOTS = ("numpy", "np", "math")
+_PURE_NAMES = ("make_masked", "len", "float", "int", "abs", "min", "max", "list", "tuple")
+
+
+def _pure_expr(e):
+    """no call other than numpy / math functions and a few builtins; no lambda, comprehension or yield"""
+    for x in ast.walk(e):
+        if isinstance(x, (ast.Lambda, ast.ListComp, ast.GeneratorExp, ast.DictComp, ast.SetComp, ast.Yield, ast.YieldFrom, ast.Await, ast.NamedExpr)):
+            return False
+        if isinstance(x, ast.Call):
+            f = x.func
+            while isinstance(f, ast.Attribute):
+                f = f.value
+            if not (isinstance(f, ast.Name) and (f.id in _PURE_ROOTS if isinstance(x.func, ast.Attribute) else f.id in _PURE_NAMES)):
+                return False
+    return True
+
+
+def _names(e, ctx=None):
+    return {x.id for x in ast.walk(e) if isinstance(x, ast.Name) and (ctx is None or isinstance(x.ctx, ctx))}
+
+
+def loop_fission(stmts):
+    """`for T in IT: S1..; X.append(E); ..Sn` -> `for T in IT: S1..Sn` followed by `for T in IT: X.append(E)`, when the append is
+    independent of the other statements: E is pure and reads nothing they store, X is mentioned nowhere else in the loop, IT is a
+    pure expression over names the loop does not store, and the loop has no break / continue / return / yield / else."""
+    out = []
+    for st in stmts:
+        for f_ in ("body", "orelse", "finalbody"):
+            v = getattr(st, f_, None)
+            if isinstance(v, list) and v and isinstance(v[0], ast.stmt):
+                setattr(st, f_, loop_fission(v))
+        for h in getattr(st, "handlers", []) or []:
+            h.body = loop_fission(h.body)
+        done = False
+        if isinstance(st, ast.For) and not st.orelse and len(st.body) >= 2 and isinstance(st.target, (ast.Name, ast.Tuple)) and _pure_expr(st.iter):
+            if not any(isinstance(x, (ast.Break, ast.Continue, ast.Return, ast.Yield, ast.YieldFrom, ast.Raise, ast.Try, ast.With)) for b in st.body for x in ast.walk(b)):
+                for k, b in enumerate(st.body):
+                    if not (isinstance(b, ast.Expr) and isinstance(b.value, ast.Call) and isinstance(b.value.func, ast.Attribute) and b.value.func.attr == "append" and isinstance(b.value.func.value, ast.Name) and len(b.value.args) == 1 and not b.value.keywords):
+                        continue
+                    x = b.value.func.value.id
+                    e = b.value.args[0]
+                    rest = st.body[:k] + st.body[k + 1:]
+                    stored = set()
+                    for r in rest:
+                        stored |= _names(r, (ast.Store, ast.Del))
+                    mentioned = set()
+                    for r in rest:
+                        mentioned |= _names(r)
+                    tnames = _names(st.target)
+                    if x in mentioned or x in _names(st.iter) or x in tnames or x in _names(e):
+                        continue
+                    if not _pure_expr(e) or (_names(e) & stored) or (_names(st.iter) & (stored | tnames)) or (tnames & stored):
+                        continue
+                    # the other statements must not mutate what E or IT read through a method call or a subscript store
+                    touched = set()
+                    for r in rest:
+                        for y in ast.walk(r):
+                            if isinstance(y, (ast.Subscript, ast.Attribute)) and isinstance(y.ctx, (ast.Store, ast.Del)):
+                                touched |= _names(y.value)
+                            if isinstance(y, ast.Call) and isinstance(y.func, ast.Attribute) and not _pure_expr(y):
+                                touched |= _names(y.func.value)
+                    if touched & (_names(e) | _names(st.iter)):
+                        continue
+                    first = ast.For(target=copy.deepcopy(st.target), iter=copy.deepcopy(st.iter), body=rest, orelse=[], lineno=st.lineno, col_offset=st.col_offset)
+                    second = ast.For(target=copy.deepcopy(st.target), iter=copy.deepcopy(st.iter), body=[b], orelse=[], lineno=st.lineno, col_offset=st.col_offset)
+                    ast.fix_missing_locations(first)
+                    ast.fix_missing_locations(second)
+                    out.extend(loop_fission([first]))
+                    out.append(second)
+                    done = True
+                    break
+        if not done:
+            out.append(st)
+    return out
+
+
+def _peeled(iter_, first_args, target, elt):
+    """`xs` when the loop runs over `xs[1:]` and every initial element is the loop's element expression at `xs[0]`"""
+    if not (isinstance(iter_, ast.Subscript) and isinstance(iter_.slice, ast.Slice) and iter_.slice.upper is None and iter_.slice.step is None and isinstance(iter_.slice.lower, ast.Constant) and iter_.slice.lower.value == 1 and isinstance(iter_.value, ast.Name)):
+        return None
+    if len(first_args) != 1 or not isinstance(target, ast.Name):
+        return None
+    xs = iter_.value.id
+    head = ast.Subscript(value=ast.Name(id=xs, ctx=ast.Load()), slice=ast.Constant(value=0), ctx=ast.Load())
+
+    class S(ast.NodeTransformer):
+        def visit_Name(self, n):
+            if n.id == target.id and isinstance(n.ctx, ast.Load):
+                return copy.deepcopy(head)
+            return n
+
+    if ast.dump(S().visit(copy.deepcopy(elt))) == ast.dump(first_args[0]):
+        return xs
+    return None
 
 
 # ------------------------------------------------------------------------------------------------ small constant loops
